@@ -440,6 +440,16 @@ func c17Envelope(b []byte) []byte {
 // c17RawExchange asks the real server for raw with one RPC and reads the response like a plain
 // HTTP client.
 func c17RawExchange(in c17RawSrvIn, raw *conformancev1.RawHTTPResponse, name string) (status int, hdr, trl http.Header, body []byte, err error) {
+	client := c17H1
+	if in.Proto == "h2c" {
+		client = c17H2
+	}
+	return c17RawExchangeAt(c17Real.addr[in.Proto], client, in, raw, name)
+}
+
+// c17RawExchangeAt: the same against the server at addr through client. raw == nil: the response
+// definition holds no raw response (the handler answers: in.Extra).
+func c17RawExchangeAt(addr string, client *http.Client, in c17RawSrvIn, raw *conformancev1.RawHTTPResponse, name string) (status int, hdr, trl http.Header, body []byte, err error) {
 	var payload []byte
 	contentType := "application/" + in.Codec
 	unaryDef := &conformancev1.UnaryResponseDefinition{RawResponse: raw}
@@ -490,7 +500,7 @@ func c17RawExchange(in c17RawSrvIn, raw *conformancev1.RawHTTPResponse, name str
 	}
 	ctx, cancel := context.WithTimeout(context.Background(), 60*time.Second)
 	defer cancel()
-	req, err := http.NewRequestWithContext(ctx, http.MethodPost, "http://"+c17Real.addr[in.Proto]+"/connectrpc.conformance.v1.ConformanceService/"+in.Proc, bytes.NewReader(payload))
+	req, err := http.NewRequestWithContext(ctx, http.MethodPost, "http://"+addr+"/connectrpc.conformance.v1.ConformanceService/"+in.Proc, bytes.NewReader(payload))
 	if err != nil {
 		return 0, nil, nil, nil, err
 	}
@@ -503,10 +513,6 @@ func c17RawExchange(in c17RawSrvIn, raw *conformancev1.RawHTTPResponse, name str
 	req.Header.Set("X-Test-Case-Name", name)
 	if in.Origin != "" {
 		req.Header.Set("Origin", in.Origin)
-	}
-	client := c17H1
-	if in.Proto == "h2c" {
-		client = c17H2
 	}
 	resp, err := client.Do(req)
 	if err != nil {
@@ -1060,5 +1066,6 @@ func runC17(c *gen.Ctx) error {
 	runC17Status(c)
 	runC17RespSeq(c)
 	runC17Retry(c)
+	runC17StackSeq(c)
 	return nil
 }
